@@ -13,7 +13,7 @@ func init() {
 	Specs["C20"] = &Spec{
 		ID: "C20",
 		Rule: "scenario = (list length n, success/error pattern); every interleaving of the real AsyncMapReduce's workers, reducer and caller is enumerated " +
-			"(unbounded with state caching; additionally preemption-bounded without caching as a cross-check); plus long lists (n = 17, 33, 40) under the default schedule only, as size-threshold probes; a scenario is non-trivial if it has >1 execution",
+			"(unbounded with state caching; additionally preemption-bounded without caching as a cross-check); plus every pattern with >=2 failures where all failures carry the same message; plus long lists (n = 17, 33, 40, 65, 129, 257, 1025) under the default schedule only, as size-threshold probes; a scenario is non-trivial if it has >1 execution",
 		Assumptions: []string{
 			"rewrite rules of vrewrite and channel/WaitGroup semantics of vrt (self-tests in setup)",
 			"state caching assumes data-race freedom of un-hooked memory; harness observations are made visible with vrt.Touch",
@@ -41,6 +41,20 @@ func init() {
 					})
 				}
 			}
+			// every failing item fails with the same message
+			for n := 2; n <= maxN; n++ {
+				for mask := 0; mask < 1<<n; mask++ {
+					if mask&(mask-1) == 0 {
+						continue // fewer than two failures
+					}
+					out = append(out, Scenario{
+						Name:  fmt.Sprintf("n=%d errmask=%0*b identical error messages, all-interleavings cached", n, n, mask),
+						Atoms: []string{fmt.Sprintf("n%d", n), "same-message"},
+						Opt:   explore.Options{Bound: -1, Cache: true, StartBranch: true},
+						H:     c20HarnessMsg(n, mask, true),
+					})
+				}
+			}
 			for n := 2; n <= crossN; n++ {
 				for mask := 0; mask < 1<<n; mask++ {
 					out = append(out, Scenario{
@@ -52,7 +66,7 @@ func init() {
 				}
 			}
 			// size thresholds (e.g. a worker pool): long lists under the default schedule and one preemption
-			for _, n := range []int{17, 33, 40} {
+			for _, n := range []int{17, 33, 40, 65, 129, 257, 1025} {
 				for _, mask := range []int{0, 1 << 3, 1<<3 | 1<<19} {
 					if mask>>n != 0 {
 						continue
